@@ -19,7 +19,7 @@ pub fn world() -> World {
         assumptions: &[
             "what simulation adds to this property is its history-dependent part: cache hits, evictions and re-encodings on one handler (hook H5 builds the library with a cache of a few KiB); the per-image clauses are checked on every draw as an invariant",
             "sixel semantics as in the DEC manual / 'All about SIXELs': six vertical pixels per data byte (bit 0 on top), '!' repeat, '$' carriage return, '-' next band, '#n;2;r;g;b' defines register n in RGB 0..100, '#n' selects",
-            "transparent pixels are either fully opaque or fully transparent (composited exactly onto the handler background)",
+            "pixels are opaque, fully transparent (composited exactly onto the handler background) or partly transparent (judged against linear-light compositing with a tolerance of one 0-100 level)",
             "images of at most 40x40 pixels are below the palette sampling threshold",
         ],
         rule: "one run = one handler (drawn background) and a history of 2..12 draws over a pool of 2..5 images (6..40 rows, 1..40 columns; few-colour images, many-colour images, cropped views, equal pixels under different allocations) with a sink that may fail at a drawn byte; non-trivial = an eviction or a re-draw of an image happened; distinct = distinct hash of (image classes, draw order, failure points)",
